@@ -91,7 +91,7 @@ impl Generator {
     fn weight(&mut self) -> i64 {
         let max = self.max;
         match self.profile.as_str() {
-            "boundary" => self.rng.pick(&[1i64, 2, 24, 25, max / 2, max - 1, max, i64::MAX, i64::MAX - 24, i64::MAX - 23]).max(1),
+            "boundary" => if self.rng.chance(6) { self.rng.pick(&[0i64, -1, i64::MIN]) } else { self.rng.pick(&[1i64, 2, 24, 25, max / 2, max - 1, max, i64::MAX, i64::MAX - 24, i64::MAX - 23]).max(1) },
             "nopressure" => 1 + self.rng.below(5) as i64,
             "pressure" => {
                 // mostly light keys (many residents), now and then one that needs several victims
@@ -108,7 +108,8 @@ impl Generator {
         let shards = self.shards as u128;
         let sec = SEC as u128;
         match self.profile.as_str() {
-            "boundary" => self.rng.pick(&[0u128, 1, sec, u64::MAX as u128, (i64::MAX as u128) * sec, (u64::MAX as u128) * sec + 999_999_999, ((i64::MAX as u128) - 2_000_000_000) * sec]),
+            "boundary" => self.rng.pick(&[0u128, 1, sec, u64::MAX as u128, (i64::MAX as u128) * sec, (u64::MAX as u128) * sec + 999_999_999, ((i64::MAX as u128) - 2_000_000_000) * sec,
+                ((i64::MAX as u128) - 1_000) * sec, ((i64::MAX as u128) - 1_000) * sec + 999_999_999, ((i64::MAX as u128) - 999) * sec, ((i64::MAX as u128) - 1_001) * sec]),
             _ => self.rng.pick(&[1u128, 999_999_999, sec, sec + 1, 2 * sec, 3 * sec, 5 * sec, shards * sec, 1000 * sec, 0]),
         }
     }
@@ -137,7 +138,7 @@ impl Generator {
             // put_or_update: all shapes the builder accepts
             let shape = self.rng.below(16);
             let value = if shape & 1 != 0 { Some(self.value()) } else { None };
-            let weight = if shape & 2 != 0 { Some(self.weight()) } else { None };
+            let weight = if shape & 2 != 0 { Some(self.weight().max(1)) } else { None };   // a request with an explicit weight <= 0 is refused by its builder (Layer G covers that), it never reaches put_or_update
             let mut ttl = if shape & 4 != 0 { Some(self.ttl()) } else { None };
             let mut remove = shape & 8 != 0;
             if ttl.is_some() && remove { if self.rng.chance(50) { ttl = None; } else { remove = false; } }
